@@ -670,5 +670,6 @@ func main() {
 	fmt.Printf("ctyextract: %d Lean definitions translated from cty/json/marshal.go (marshal, marshalDynamic)\n", translateJsonMarshalFns(*repo, *leanDir, hdr)) // C15 (translate_jsonmarshal.go)
 	// the path machinery of cty/path.go and cty/path_set.go, translated (translate_path.go)
 	fmt.Printf("ctyextract: %d Lean definitions translated from cty/path.go, cty/path_set.go, cty/walk.go (steps, Path.Apply/LastStep/Equals/HasPrefix, pathSetRules, PathSet, Walk)\n", translatePathFns(*repo, *leanDir, hdr))
+	fmt.Printf("ctyextract: %d Lean definitions translated from cty/marks.go (the marks API: Mark/Unmark/WithMarks/…, the deep variants and their transformers)\n", translateMarksFns(*repo, *leanDir, hdr)) // C04 (translate_marks.go)
 	fmt.Printf("ctyextract: %d stdlib functions, %d op prologues, %d delimiters, %d+%d primitive conversions\n", len(fns), len(ps), len(rs), len(safe), len(unsafe))
 }
